@@ -22,6 +22,9 @@ import (
 //	    yields for the same seed (0 when n is outside 1..62) and w the result ("panic" if it panicked)
 //	run|prun <api> <retries> <keep> <backoff> <max> <jit> <ctxkind> <k> <p> <outcome>*
 //	    api: ctx (RetryWithCtx) | some (RetrySome) | retry (Retry);  outcome: o | r<id> | f<id>
+//	    outcome "r*N" = N recoverable failures (ids cycle 0..7)
+//	    ctxkind may carry a flavour "kind/flavour": which of Go's context constructors makes the context
+//	    (see c18CancelCtx, c18DeadlineCtx); the 14th is-bit is errors.Is(failure, ctx.Err())
 //	    ctxkind: none | precancel | predeadline | inF (cancel inside call k) |
 //	             dl (context.WithDeadline(start+p), math/rand seeded with k when jitter is on) |
 //	             midwait (cancel p ns after call k returned) | midwaitDL (same, a context whose Err is
@@ -88,6 +91,81 @@ func (c *c18Ctx) end(e error) {
 	c.once.Do(func() { c.err.Store(e); close(c.done) })
 }
 
+var c18Foreign = errors.New("a cause that wraps nothing")
+
+type c18HideDeadline struct{ context.Context }
+
+func (c18HideDeadline) Deadline() (time.Time, bool) { return time.Time{}, false }
+
+// the kinds of cancellable context Go offers; end() ends it (Err() == context.Canceled in every flavour)
+func c18CancelCtx(flavour string) (ctx context.Context, end func(), cleanup func()) {
+	bg := context.Background()
+	switch flavour {
+	case "cause": // WithCancelCause, cancelled with a cause that does not wrap context.Canceled
+		c, cc := context.WithCancelCause(bg)
+		return c, func() { cc(c18Foreign) }, func() { cc(nil) }
+	case "child": // child of a parent that gets cancelled
+		par, pc := context.WithCancel(bg)
+		c, cc := context.WithCancel(par)
+		return c, pc, func() { cc(); pc() }
+	case "childcause": // child of a parent cancelled with a foreign cause
+		par, pc := context.WithCancelCause(bg)
+		c, cc := context.WithCancel(par)
+		return c, func() { pc(c18Foreign) }, func() { cc(); pc(nil) }
+	case "value": // value context over a cancellable one
+		c, cc := context.WithCancel(bg)
+		return context.WithValue(c, c18HideDeadline{}, 1), cc, cc
+	case "detached": // WithoutCancel of an already cancelled parent, then made cancellable again
+		par, pc := context.WithCancel(bg)
+		pc()
+		c, cc := context.WithCancelCause(context.WithoutCancel(par))
+		return c, func() { cc(c18Foreign) }, func() { cc(nil) }
+	case "timeoutchild": // cancellable child of a far deadline set with a foreign cause
+		par, pc := context.WithTimeoutCause(bg, time.Hour*24*365, c18Foreign)
+		c, cc := context.WithCancel(par)
+		return c, cc, func() { cc(); pc() }
+	case "own": // an implementation of context.Context that is not from the standard library
+		fc := &c18Ctx{done: make(chan struct{})}
+		return fc, func() { fc.end(context.Canceled) }, func() {}
+	}
+	c, cc := context.WithCancel(bg)
+	return c, cc, cc
+}
+
+// contexts that end by time, d from now (Err() == context.DeadlineExceeded in every flavour)
+func c18DeadlineCtx(flavour string, d time.Duration) (context.Context, func()) {
+	bg := context.Background()
+	switch flavour {
+	case "timeout":
+		return context.WithTimeout(bg, d)
+	case "deadlinecause":
+		return context.WithDeadlineCause(bg, time.Now().Add(d), c18Foreign)
+	case "timeoutcause":
+		return context.WithTimeoutCause(bg, d, c18Foreign)
+	case "child":
+		par, pc := context.WithTimeoutCause(bg, d, c18Foreign)
+		c, cc := context.WithCancel(par)
+		return c, func() { cc(); pc() }
+	}
+	return context.WithDeadline(bg, time.Now().Add(d))
+}
+
+// outcome tokens: o | r<id> | f<id>; "r*N" in a request stands for N recoverable failures with ids 0,1,..,7,0,..
+func c18Expand(toks []string) []string {
+	var out []string
+	for _, t := range toks {
+		if strings.HasPrefix(t, "r*") {
+			n, _ := strconv.Atoi(t[2:])
+			for i := 0; i < n; i++ {
+				out = append(out, "r"+strconv.Itoa(len(out)%8))
+			}
+		} else {
+			out = append(out, t)
+		}
+	}
+	return out
+}
+
 func c18Outcome(tok string) (bool, error) {
 	if tok == "o" {
 		return true, nil
@@ -132,31 +210,40 @@ func c18Run1(f []string) string {
 	kind := f[7]
 	k, _ := strconv.Atoi(f[8])
 	p, _ := strconv.ParseInt(f[9], 10, 64)
-	outs := f[10:]
+	outs := c18Expand(f[10:])
 
 	var ctx context.Context = context.Background()
 	cancel := func() {}
 	var endCtx func()
+	flavour := ""
+	if i := strings.IndexByte(kind, '/'); i >= 0 {
+		kind, flavour = kind[:i], kind[i+1:]
+	}
 	switch kind {
-	case "precancel":
-		ctx, cancel = context.WithCancel(ctx)
-		cancel()
+	case "precancel", "inF", "midwait":
+		ctx, endCtx, cancel = c18CancelCtx(flavour)
+		if kind == "precancel" {
+			endCtx()
+		}
 	case "predeadline":
-		ctx, cancel = context.WithDeadline(ctx, time.Now().Add(-time.Second))
-	case "inF", "midwait":
-		ctx, cancel = context.WithCancel(ctx)
-		endCtx = cancel
+		ctx, cancel = c18DeadlineCtx(flavour, -time.Second)
 	case "midwaitDL":
-		fc := &c18Ctx{done: make(chan struct{})}
-		ctx = fc
-		endCtx = func() { fc.end(context.DeadlineExceeded) }
+		if strings.HasPrefix(flavour, "hidden") { // a real deadline p ns after the start that Deadline() does not report
+			var inner context.Context
+			inner, cancel = c18DeadlineCtx(strings.TrimPrefix(flavour, "hidden-"), time.Duration(p))
+			ctx = c18HideDeadline{inner}
+		} else {
+			fc := &c18Ctx{done: make(chan struct{})}
+			ctx = fc
+			endCtx = func() { fc.end(context.DeadlineExceeded) }
+		}
 	case "deadline":
-		ctx, cancel = context.WithDeadline(ctx, time.Now().Add(time.Duration(p)))
+		ctx, cancel = c18DeadlineCtx(flavour, time.Duration(p))
 	case "dl": // deadline p ns away; k seeds math/rand (jitter runs are not run concurrently)
 		if ebo.Jitter {
 			rand.Seed(int64(k))
 		}
-		ctx, cancel = context.WithDeadline(ctx, time.Now().Add(time.Duration(p)))
+		ctx, cancel = c18DeadlineCtx(flavour, time.Duration(p))
 	}
 	defer cancel()
 
@@ -174,7 +261,9 @@ func c18Run1(f []string) string {
 			case "inF":
 				endCtx()
 			case "midwait", "midwaitDL":
-				time.AfterFunc(time.Duration(p), endCtx)
+				if endCtx != nil {
+					time.AfterFunc(time.Duration(p), endCtx)
+				}
 			}
 		}
 		return rec, err
@@ -209,6 +298,14 @@ func c18Run1(f []string) string {
 		} else {
 			sb.WriteByte('0')
 		}
+	}
+	// 14th position: errors.Is(failure, ctx.Err()) when the context has ended by now
+	if ce := ctx.Err(); ce == nil {
+		sb.WriteByte('-')
+	} else if errors.Is(err, ce) {
+		sb.WriteByte('1')
+	} else {
+		sb.WriteByte('0')
 	}
 	fmt.Fprintf(&sb, " %d", len(fe.Others))
 	for _, o := range fe.Others {
